@@ -1,10 +1,13 @@
 import MoPepGen.Lemmas.Split
+import MoPepGen.Lemmas.SummarySplit
+import MoPepGen.Lemmas.Encode
 /-!
 # C18 — database bookkeeping conserves peptides (split, merge, encode, summarize)
 
 Property theorems only.  `split`, `splitPep`, `chooseKey`, `mergePools`/`addPeptide`,
-`encode`/`decode`, `summarize` are the models of the Python (tied to /repo by the
-correspondence streams `split`, `summarize`, `merge`, `encode`, `gt`).
+`encode`/`decode`, `summarize`, `toInt`/`srcGt`, `cliSplit`/`cliSummarize` are the models of the
+Python (tied to /repo by the correspondence streams `split`, `summarize`, `merge`, `encode`,
+`decode`, `gt`, `gtl`, `toint`).
 -/
 namespace MoPepGen.Props.C18
 open MoPepGen
@@ -15,8 +18,8 @@ open MoPepGen
 Full statement (design): `VariantSourceSet.__gt__` is a strict total order on source sets when
 levels are distinct.  Proved here: the comparison the code performs on the `to_int()` images
 (longer list greater, then lexicographic) is a strict total order on those images, and the
-derived `≤` used for sorting is total and transitive.  Missing for the full statement: `to_int`
-is injective on sets when the level map is injective (validated by the `gt` stream).
+derived `≤` used for sorting is total and transitive.  The full statement (with `to_int` injective on sets) is
+`source_order_total` below; this part is kept because `split_key_spec` uses it.
 -/
 theorem source_order_total_partial :
     (∀ a : List Nat, intsGt a a = false) ∧
@@ -26,6 +29,99 @@ theorem source_order_total_partial :
     (∀ a b : List Nat, intsLe a b = false → intsLe b a = true) ∧
     (∀ a b c : List Nat, intsLe a b = true → intsLe b c = true → intsLe a c = true) :=
   ⟨intsGt_irrefl, intsGt_asymm, intsGt_trans, intsGt_total, intsLe_total, intsLe_trans⟩
+
+/--
+**source_order_total.**  `VariantSourceSet` is modelled as a list of source names read up to
+`sameSet` (same members; order and repetitions of the underlying collection are irrelevant).
+For every level map `o` (`levels_map`, with plain and `frozenset` keys):
+
+1. `to_int` and `__gt__` are functions of the *set*: `sameSet a a'` gives the same `to_int` and
+   the same comparison on either side;
+2. **`to_int` is injective on source sets** whenever the level map is injective on the keys the
+   two sets look up (`o.injOn (keysOf [a, b])`: `frozenset(a)`, `frozenset(b)` and their elements);
+3. hence `__gt__` (`srcGt`) is a **strict total order on source sets**: irreflexive (equal sets
+   are never greater), asymmetric, transitive — these three for every `o` — and total: two
+   different sets with defined levels are comparable one way or the other (under 2's hypothesis).
+-/
+theorem source_order_total (o : Order) :
+    (∀ a a' : SrcSet, sameSet a a' = true → toInt o a = toInt o a') ∧
+    (∀ a a' b : SrcSet, sameSet a a' = true →
+        srcGt o a b = srcGt o a' b ∧ srcGt o b a = srcGt o b a') ∧
+    (∀ (a b : SrcSet) (l : List Nat), o.injOn (keysOf [a, b]) = true →
+        toInt o a = some l → toInt o b = some l → sameSet a b = true) ∧
+    (∀ a b : SrcSet, sameSet a b = true → srcGt o a b = some false) ∧
+    (∀ a b : SrcSet, srcGt o a b = some true → srcGt o b a = some false) ∧
+    (∀ a b c : SrcSet, srcGt o a b = some true → srcGt o b c = some true →
+        srcGt o a c = some true) ∧
+    (∀ (a b : SrcSet) (x y : List Nat), o.injOn (keysOf [a, b]) = true →
+        toInt o a = some x → toInt o b = some y → sameSet a b = false →
+        srcGt o a b = some true ∨ srcGt o b a = some true) :=
+  ⟨fun _ _ h => toInt_congr o h,
+   fun _ _ b h => ⟨srcGt_congr_left o h b, srcGt_congr_right o h b⟩,
+   fun a b l hinj ha hb => toInt_inj o a b hinj l ha hb,
+   fun a b h => srcGt_same o a b h,
+   fun a b h => srcGt_asymm o a b h,
+   fun a b c h1 h2 => srcGt_trans o a b c h1 h2,
+   fun a b x y hinj hx hy hne => srcGt_total o a b hinj x y hx hy hne⟩
+
+/-- **The hypothesis of `source_order_total` holds for every order the CLIs build.**  If the level
+values of the parsed `--order-source` are pairwise distinct (they are `enumerate` positions),
+the orders `splitFasta` and `summarizeFasta` end up with (`append_order` per GVF, then the internal
+sources, each at `max + 1`) have pairwise distinct levels, and a level map with distinct values is
+injective on every list of keys. -/
+theorem source_order_cli (g : GroupMap) (o0 : Order) (gvfs : List Gvf)
+    (h : o0.levelsDistinct = true) :
+    (splitterOrder g o0 gvfs).1.levelsDistinct = true ∧
+    (summarizerOrder g o0 gvfs).levelsDistinct = true ∧
+    (splitterOrder g o0 gvfs).1 = summarizerOrder g o0 gvfs ∧
+    ∀ (o : Order), o.levelsDistinct = true → ∀ ks : List OKey, o.injOn ks = true :=
+  ⟨splitterOrder_levelsDistinct g o0 gvfs h, summarizerOrder_levelsDistinct g o0 gvfs h,
+   splitterOrder_eq g o0 gvfs, fun o ho ks => injOn_of_levelsDistinct o ho ks⟩
+
+/-- **The sort the splitter performs is well defined.**  `sortInfos` (the model of
+`peptide_infos.sort()`) applied to any permutation of the infos yields the same sequence of
+`to_int` images and a permutation of the same infos; when the level map is injective on the
+source sets involved, the source sets at equal positions of the two results are equal as sets —
+in particular the first one, which decides the database. -/
+theorem sort_order_independent (o : Order) (infos infos' : List (Entry × SrcSet))
+    (hp : infos'.Perm infos) (l : List (List Nat × (Entry × SrcSet)))
+    (h : sortInfos o infos = .ok l) :
+    ∃ l', sortInfos o infos' = .ok l' ∧ l'.map (·.1) = l.map (·.1) ∧ l'.Perm l ∧
+      (o.injOn (keysOf (infos.map (·.2))) = true →
+        ∀ (n : Nat) (x x' : List Nat × (Entry × SrcSet)), l[n]? = some x → l'[n]? = some x' →
+          sameSet x'.2.2 x.2.2 = true) := by
+  obtain ⟨l', h1, h2, h3, f, f'⟩ := sortInfos_perm o infos infos' hp l h
+  refine ⟨l', h1, h2, h3, ?_⟩
+  intro hinj n x x' hx hx'
+  obtain ⟨m, t⟩ := f x (List.mem_of_getElem? hx)
+  obtain ⟨m', t'⟩ := f' x' (List.mem_of_getElem? hx')
+  have e : x'.1 = x.1 := by
+    have : (l'.map (·.1))[n]? = (l.map (·.1))[n]? := by rw [h2]
+    simpa [List.getElem?_map, hx, hx'] using this
+  apply toInt_inj o _ _ _ x.1 (by rw [t', e]) t
+  apply injOn_mono _ _ _ _ hinj
+  apply keysOf_mono
+  intro s hs
+  simp only [List.mem_cons, List.not_mem_nil, or_false] at hs
+  rcases hs with rfl | rfl
+  · exact List.mem_map.mpr ⟨x'.2, m', rfl⟩
+  · exact List.mem_map.mpr ⟨x.2, m, rfl⟩
+
+/-- **The database a peptide is filed under does not depend on the order of its header
+entries**, nor does the multiset of entries written: if `p'` is `p` with the header entries
+permuted, `splitPep` succeeds on `p'` with the same key, the same sequence and a permutation of
+the same output header.  Hypotheses: the level map is injective on the source sets of the
+header's entries (`source_order_cli`: true for every CLI-built order), and the values of the
+wildcard map are duplicate-free lists (true for `create_wildcard_map` on an order whose
+combination keys are sets). -/
+theorem split_key_order_independent (c : SplitCfg) (p p' : PRec) (hseq : p'.seq = p.seq)
+    (hperm : p'.header.Perm p.header) (infos : List (Entry × SrcSet))
+    (hi : headerInfos c.env p.header = .ok infos)
+    (hinj : c.env.order.injOn (keysOf (infos.map (·.2))) = true)
+    (hw : ∀ kv ∈ c.env.wildcard, kv.2.Nodup) (k : DbKey) (q : PRec)
+    (h : splitPep c p = .ok (k, q)) :
+    ∃ q', splitPep c p' = .ok (k, q') ∧ q'.seq = q.seq ∧ q'.header.Perm q.header :=
+  splitPep_perm c p p' hseq hperm infos hi hinj hw k q h
 
 /-! ## split -/
 
@@ -254,9 +350,8 @@ Full statement (design): `decode dict (encode x) = x` for every record, equal he
 id.  Proved here (the part that does not involve the id table): for a non-empty decoy string the
 decoy mark is recognised on the encoded identifier, stripping it returns the identifier, and
 re-attaching it to the stripped *header* returns the header — so decoy prefixes/suffixes are
-preserved by strip → look-up → wrap.  Missing: the invariant of the `id_mapper` fold (ids are the
-pairwise distinct `uuid k`, the dictionary lists exactly the mapper) — validated on the real
-files by the `decode` predicate and the `encode` stream.
+preserved by strip → look-up → wrap.  The invariant of the `id_mapper` fold and the full round
+trip are `encode_inv` / `encode_decode` below.
 -/
 theorem encode_decode_partial (c : DecoyCfg) (hne : c.str ≠ []) :
     (∀ i : List Char, c.isDecoy (c.wrap i) = true ∧ c.real (c.wrap i) = i) ∧
@@ -290,6 +385,121 @@ theorem encode_decode_partial (c : DecoyCfg) (hne : c.str ≠ []) :
       subst this
       simp
 
+/-- **encode_inv.**  The invariant of the `id_mapper` fold of `encode_fasta`, for every decoy
+configuration, every supply of identifiers `uuid : Nat → Id` (`uuid k` = the k-th `uuid4()`) and
+every list of records: after the records `recs` the state `st` satisfies `EncInv`:
+* the keys of `id_mapper` are pairwise distinct and are exactly the (decoy-stripped) headers seen;
+* its values are `uuid 0, …, uuid (st.next - 1)` in insertion order (so pairwise distinct when
+  `uuid` is injective), with `st.next ≤ recs.length`;
+* the dictionary file lists exactly the mapper, as (identifier, header) lines in the same order;
+* the i-th written record has the i-th sequence and, as title, the identifier `id_mapper` holds
+  for its stripped header, with the decoy mark re-attached iff the input title carried it —
+  so **equal headers share an identifier**. -/
+theorem encode_inv (c : DecoyCfg) (uuid : Nat → List Char) (recs : List (List Char × Pep)) :
+    EncInv c uuid recs (encode c uuid recs) :=
+  MoPepGen.encode_inv c uuid recs
+
+/-- the ids in use are pairwise distinct and free of the decoy mark: what `encode_decode` assumes
+of `uuid4()` for an input of `n` records (decidable for given `uuid`, `n`) -/
+def UuidOk (c : DecoyCfg) (uuid : Nat → List Char) (n : Nat) : Prop :=
+  ((List.range n).map uuid).Nodup ∧ ∀ k, k < n → c.isDecoy (uuid k) = false
+
+/-- equal (decoy-stripped) headers share an identifier, different ones get different
+identifiers (ids pairwise distinct) -/
+theorem encode_ids_iff (c : DecoyCfg) (uuid : Nat → List Char) (recs : List (List Char × Pep))
+    (hinj : ((List.range recs.length).map uuid).Nodup) (r1 r2 : List Char × Pep)
+    (h1 : r1 ∈ recs) (_h2 : r2 ∈ recs) :
+    lookupHdr (encode c uuid recs).mapper (c.strip r1.1) =
+      lookupHdr (encode c uuid recs).mapper (c.strip r2.1) ↔ c.strip r1.1 = c.strip r2.1 := by
+  have inv := MoPepGen.encode_inv c uuid recs
+  constructor
+  · intro e
+    have k1 : c.strip r1.1 ∈ (encode c uuid recs).mapper.map (·.1) :=
+      (inv.keys _).mpr (List.mem_map.mpr ⟨r1, h1, rfl⟩)
+    cases l1 : lookupHdr (encode c uuid recs).mapper (c.strip r1.1) with
+    | none => exact absurd k1 ((lookupHdr_none_iff _ _).mp l1)
+    | some i =>
+      rw [l1] at e
+      have m1 := lookupHdr_some_mem _ _ _ l1
+      have m2 := lookupHdr_some_mem _ _ _ e.symm
+      have hidn : ((encode c uuid recs).mapper.map (·.2)).Nodup := by
+        rw [inv.ids]
+        exact ((List.range_sublist.mpr inv.next_le).map uuid).nodup hinj
+      have d1 := lookup_swap _ _ _ hidn m1
+      have d2 := lookup_swap _ _ _ hidn m2
+      rw [d1] at d2
+      exact Option.some.inj d2
+  · intro e; rw [e]
+
+/--
+**encode_decode.**  For every list of records, every decoy configuration with a non-empty decoy
+string (prefix or suffix) and every identifier supply satisfying `UuidOk` (the `recs.length`
+first identifiers are pairwise distinct and do not carry the decoy mark): the sequences are
+written unchanged and in order, and decoding every written title through the written dictionary
+(strip the decoy mark, look the identifier up, re-attach the mark) restores the original title
+exactly — decoy prefix / suffix preserved.
+-/
+theorem encode_decode (c : DecoyCfg) (hne : c.str ≠ []) (uuid : Nat → List Char)
+    (recs : List (List Char × Pep)) (hu : UuidOk c uuid recs.length) :
+    let st := encode c uuid recs
+    st.out.map (fun r => (decode c st.dict r.1, r.2)) = recs.map (fun r => (some r.1, r.2)) := by
+  intro st
+  have inv := MoPepGen.encode_inv c uuid recs
+  obtain ⟨Hw, Hr⟩ := decoy_marks_nonempty c hne
+  show (encode c uuid recs).out.map _ = _
+  rw [inv.out, List.map_map]
+  apply List.map_congr_left
+  intro r hr
+  simp only [Function.comp]
+  rw [decode_of_inv c uuid recs _ inv hu.1 Hw Hr (fun _ _ _ k hk => hu.2 k hk) r hr]
+
+/-- the remaining configuration that round-trips: the empty decoy string as a prefix (every title
+"is a decoy", the mark is empty).  Only pairwise distinct identifiers are needed. -/
+theorem encode_decode_empty_prefix (c : DecoyCfg) (he : c.str = []) (hp : c.prefixPos = true)
+    (uuid : Nat → List Char) (recs : List (List Char × Pep))
+    (hinj : ((List.range recs.length).map uuid).Nodup) :
+    let st := encode c uuid recs
+    st.out.map (fun r => (decode c st.dict r.1, r.2)) = recs.map (fun r => (some r.1, r.2)) := by
+  intro st
+  have inv := MoPepGen.encode_inv c uuid recs
+  obtain ⟨Hw, Hr, Hall⟩ := decoy_marks_empty_prefix c he hp
+  show (encode c uuid recs).out.map _ = _
+  rw [inv.out, List.map_map]
+  apply List.map_congr_left
+  intro r hr
+  simp only [Function.comp]
+  rw [decode_of_inv c uuid recs _ inv hinj Hw Hr
+    (fun r' _ hd => by rw [Hall r'.1] at hd; cases hd) r hr]
+
+/-- for an injective identifier supply, the first hypothesis of `encode_decode` holds for
+every input -/
+theorem uuid_injective_nodup (uuid : Nat → List Char) (h : ∀ j k, uuid j = uuid k → j = k)
+    (n : Nat) : ((List.range n).map uuid).Nodup := by
+  induction n with
+  | zero => simp
+  | succ n ih =>
+    rw [List.range_succ, List.map_append]
+    refine List.nodup_append.mpr ⟨ih, by simp, ?_⟩
+    intro a ha b hb
+    simp only [List.map_cons, List.map_nil, List.mem_singleton] at hb
+    subst hb
+    obtain ⟨k, hk, rfl⟩ := List.mem_map.mp ha
+    intro e
+    have := h k n e
+    have := List.mem_range.mp hk
+    omega
+
+/-- **The one configuration excluded above is a real failure** (known finding
+`encode-empty-decoy-suffix`): with `--decoy-string ''` and position `suffix`,
+`get_real_header` computes `header[:-0] = ''`, every record is filed under the empty header and
+the dictionary cannot restore anything. -/
+theorem encode_decode_empty_suffix_fails :
+    let c : DecoyCfg := ⟨[], false⟩
+    let uuid : Nat → List Char := fun k => ("U" ++ toString k).toList
+    let st := encode c uuid [("X".toList, "AAK".toList)]
+    st.dict = [("U0".toList, [])] ∧ decode c st.dict (st.out.map (·.1))[0]! = none := by
+  decide
+
 /-! ## summarize -/
 
 /-- **summary_total.** The per-source totals of the summary table add up to the number of
@@ -319,10 +529,10 @@ theorem summary_total (env : SrcEnv) (rule : Re) (exc : Option Re) (pool : List 
 Full statement (design): under the same order/group options, without wildcard keys and without a
 (gene, label) shared by GVFs of two sources, every row total equals the size of the database
 `splitFasta` writes for that source combination.  Proved here: the grand totals agree — the
-summary table and the split databases both account for every peptide exactly once.  The per-key
-equality is checked on the real CLIs (`eq_split` predicate, "clean" half of the cases), and the
-two excluded situations are confirmed disagreements (known findings
-`summary-vs-split-wildcard`, `summary-vs-split-shared-label`).
+summary table and the split databases both account for every peptide exactly once (no hypothesis
+on the options needed for that).  The per-key equality is `summary_eq_split` below; the two
+excluded situations are confirmed disagreements (known findings `summary-vs-split-wildcard`,
+`summary-vs-split-shared-label`, with `decide`-checked counter-examples in the last section).
 -/
 theorem summary_eq_split_partial (c : SplitCfg) (envS : SrcEnv) (rule : Re) (exc : Option Re)
     (pool : List PRec) (dbs : Dbs) (t : SumTable)
@@ -330,6 +540,138 @@ theorem summary_eq_split_partial (c : SplitCfg) (envS : SrcEnv) (rule : Re) (exc
     t.total = (dbs.map (·.2.length)).sum := by
   obtain ⟨_, _, _, _, _, hsum⟩ := split_partition c pool dbs hs
   rw [summary_total envS rule exc pool t ht, hsum]
+
+/-- the database key `splitFasta` uses for the source set `s` under the options `x`,
+`--max-source-groups mg`, `--additional-split addl` (`chooseKey` only reads the order) -/
+def cliKey (x : CliOpts) (mg : Int) (addl : List SrcSet) (s : SrcSet) : DbKey :=
+  chooseKey { env := x.sumEnv, maxGroups := mg, additional := addl } s
+
+/--
+**summary_eq_split.**  `splitFasta` (`cliSplit`) and `summarizeFasta` (`cliSummarize`) run on the
+same pool under the same options `x` (`--order-source`, `--group-source`, GVFs, annotation), any
+`--max-source-groups`, `--additional-split`, enzyme.  Hypotheses on the options (all decidable):
+* `hld` the levels of the order are pairwise distinct (true for every parsed `--order-source`,
+  `source_order_cli`);
+* `hset` its combination keys are sets;
+* `hnw` **no wildcard key** (`X-*`, `X-+`) — excludes known finding `summary-vs-split-wildcard`;
+* `hns` **no (gene, label) in GVFs of two sources** — excludes `summary-vs-split-shared-label`.
+Then, with `ks` the source set `add_entry` counts each peptide under (in pool order):
+1. every row total of the summary table is the number of peptides counted under that source
+   combination (`t.count s`, the number `get_stringified_summary_entry` prints);
+2. the size of EVERY database `k` (source, `-additional`, `Remaining`) is the number of peptides
+   whose source set `splitFasta` files under `k`;
+3. **per key**: for every source combination `s` (duplicate-free list of plain keys of the order)
+   with at most `--max-source-groups` members, the database key is `str(s)` and the row total of
+   `s` equals the number of records of that database (0 = 0 when neither exists).
+-/
+theorem summary_eq_split (x : CliOpts) (mg : Int) (addl : List SrcSet) (rule : Re) (exc : Option Re)
+    (pool : List PRec) (dbs : Dbs) (t : SumTable)
+    (hld : x.order.levelsDistinct = true) (hset : x.order.keysAreSets = true)
+    (hnw : x.order.noWildKeys = true) (hns : noSharedLabel x.gvfs = true)
+    (hs : cliSplit x mg addl pool = .ok dbs) (ht : cliSummarize x rule exc pool = .ok t) :
+    ∃ ks : List (SrcSet × Nat), sumKeys x.sumEnv rule exc pool = .ok ks ∧
+      (∀ s, t.count s = (ks.filter fun y => sameSet y.1 s).length) ∧
+      (∀ k, (dbGet dbs k).length = (ks.filter fun y => cliKey x mg addl y.1 = k).length) ∧
+      (∀ s : SrcSet, s.Nodup → (∀ y ∈ s, x.order.has (.one y) = true) → (s.length : Int) ≤ mg →
+        cliKey x mg addl s = .sources (setStr x.order s).1 "" ∧
+        t.count s = (dbGet dbs (.sources (setStr x.order s).1 "")).length) := by
+  -- summarize side
+  unfold cliSummarize summarize at ht
+  cases hk : sumKeys x.sumEnv rule exc pool with
+  | error e => rw [hk] at ht; cases ht
+  | ok ks =>
+    rw [hk] at ht
+    simp only [Except.ok.injEq] at ht
+    -- split side
+    unfold cliSplit at hs
+    simp only [] at hs
+    have ho : (splitterOrder x.group x.order0 x.gvfs).1 = x.order := splitterOrder_eq _ _ _
+    rw [ho] at hs
+    split at hs
+    · cases hs
+    · obtain ⟨wm, hwm, hid⟩ :=
+        wildcardMap_noWild x.order (splitterOrder x.group x.order0 x.gvfs).2 hnw hset
+      rw [hwm] at hs
+      simp only [] at hs
+      rw [sourceFirst_eq_sourceLast x.gvfs hns] at hs
+      change split { env := x.sumEnv.withWild wm, maxGroups := mg, additional := addl } pool = _
+        at hs
+      unfold split at hs
+      cases ha : splitAssign (⟨x.sumEnv.withWild wm, mg, addl⟩ : SplitCfg) pool with
+      | error e => rw [ha] at hs; cases hs
+      | ok as =>
+        rw [ha] at hs
+        simp only [Except.ok.injEq] at hs
+        obtain ⟨_, f2, _⟩ := foldl_addToDb as [] (by simp)
+        rw [hs] at f2
+        obtain ⟨hkeys, hwf⟩ := splitAssign_keys x.sumEnv rfl wm hid hld mg addl rule exc pool as ks
+          ha hk
+        have hck : ∀ s, chooseKey (⟨x.sumEnv.withWild wm, mg, addl⟩ : SplitCfg) s =
+            cliKey x mg addl s := fun _ => rfl
+        have hsize : ∀ k, (dbGet dbs k).length =
+            (ks.filter fun y => cliKey x mg addl y.1 = k).length := by
+          intro k
+          have := f2 k
+          simp only [dbGet, List.find?_nil, List.nil_append] at this
+          have e : dbGet dbs k = (as.filter fun a => a.1 = k).map (·.2) := by
+            simpa [dbGet] using this
+          rw [e, List.length_map]
+          have e2 : (as.filter fun a => decide (a.1 = k)).length =
+              ((as.map (·.1)).filter fun a => decide (a = k)).length := by
+            rw [List.filter_map, List.length_map]; rfl
+          rw [e2, hkeys, List.filter_map, List.length_map]
+          simp only [hck]
+          rfl
+        have hcount : ∀ s, t.count s = (ks.filter fun y => sameSet y.1 s).length := by
+          intro s
+          rw [← ht, count_foldl]
+          simp [SumTable.count]
+        refine ⟨ks, rfl, hcount, hsize, ?_⟩
+        intro s hnd hkeys' hfit
+        have hfitk := chooseKey_fit { env := x.sumEnv, maxGroups := mg, additional := addl } hnw s
+          hkeys' hfit
+        refine ⟨hfitk, ?_⟩
+        have hfitk' : cliKey x mg addl s = .sources (setStr x.order s).1 "" := hfitk
+        rw [hcount s, ← hfitk', hsize]
+        congr 1
+        apply List.filter_congr
+        intro y hy
+        obtain ⟨ynd, ykeys⟩ := hwf y hy
+        cases hss : sameSet y.1 s with
+        | true =>
+          have := chooseKey_congr { env := x.sumEnv, maxGroups := mg, additional := addl } hss ynd hnd
+          simp only [cliKey, this, decide_true]
+        | false =>
+          have : cliKey x mg addl y.1 ≠ cliKey x mg addl s := by
+            intro e
+            have := chooseKey_inj { env := x.sumEnv, maxGroups := mg, additional := addl } hnw s y.1
+              hkeys' ykeys hfit e
+            rw [this] at hss; cases hss
+          simp only [this, decide_false]
+
+/-- **The rows `write_summary_table` prints.**  Its source combinations are drawn, in level
+order, from the plain keys of the order (`x.order.plain`; `itertools.combinations`).  Under the
+hypotheses of `summary_eq_split` and with pairwise distinct plain keys, for every such combination
+`comb` of at most `--max-source-groups` sources: the database key `splitFasta` uses is `comb`
+itself — its file name part `'-'.join(comb)` IS the row name — and the printed `n_total`
+equals the number of records in that database. -/
+theorem summary_row_eq_db (x : CliOpts) (mg : Int) (addl : List SrcSet) (rule : Re)
+    (exc : Option Re) (pool : List PRec) (dbs : Dbs) (t : SumTable)
+    (hld : x.order.levelsDistinct = true) (hset : x.order.keysAreSets = true)
+    (hnw : x.order.noWildKeys = true) (hns : noSharedLabel x.gvfs = true)
+    (hpl : x.order.plain.Nodup)
+    (hs : cliSplit x mg addl pool = .ok dbs) (ht : cliSummarize x rule exc pool = .ok t)
+    (i : Nat) (comb : List Src) (hc : comb ∈ combos (i + 1) x.order.plain)
+    (hfit : (comb.length : Int) ≤ mg) :
+    t.count comb = (dbGet dbs (.sources comb "")).length ∧
+    (DbKey.sources comb "").render = "-".intercalate comb := by
+  have hsub := combos_sublist (i + 1) x.order.plain comb hc
+  obtain ⟨ks, _, _, _, h4⟩ := summary_eq_split x mg addl rule exc pool dbs t hld hset hnw hns hs ht
+  have hkeys : ∀ y ∈ comb, x.order.has (.one y) = true :=
+    fun y hy => (has_one_iff x.order y).mpr (hsub.subset hy)
+  obtain ⟨_, e⟩ := h4 comb (hsub.nodup hpl) hkeys hfit
+  rw [setStr_sublist x.order hnw hpl comb hsub] at e
+  exact ⟨e, by simp [DbKey.render]⟩
 
 /-! ## non-vacuity -/
 
@@ -361,6 +703,99 @@ example : (mergePools [[⟨"AAK".toList, [[f "T1", f "SNV-1-A-T", f "1"]]⟩],
      ⟨"CCK".toList, [[f "X"]]⟩] := by decide
 
 example : (⟨"DECOY_".toList, true⟩ : DecoyCfg).str ≠ [] := by decide
+
+/-! ### source_order_total -/
+
+/-- an order with a combination key, as `--order-source B,A-B,A,C` gives it -/
+def ord1 : Order := [(.one "B", 0), (.many ["A", "B"], 1), (.one "A", 2), (.one "C", 3)]
+
+example : ord1.levelsDistinct = true ∧ ord1.injOn (keysOf [["A", "B"], ["C"]]) = true := by decide
+/-- order and repetitions of the underlying collection do not matter; the combination key wins -/
+example : toInt ord1 ["A", "B"] = some [1] ∧ toInt ord1 ["B", "A", "B"] = some [1] ∧
+    toInt ord1 ["C", "A"] = some [2, 3] ∧ toInt ord1 ["A", "C", "A"] = some [2, 3] := by decide
+example : srcGt ord1 ["C"] ["A", "B"] = some true ∧ srcGt ord1 ["A", "B"] ["C"] = some false ∧
+    srcGt ord1 ["A", "C"] ["C"] = some true ∧ srcGt ord1 ["B", "A"] ["A", "B"] = some false ∧
+    srcGt ord1 ["A"] ["D"] = none := by decide
+/-- without injectivity `to_int` is not injective and two different sets are incomparable: the
+hypothesis of part 3 of `source_order_total` is needed -/
+example : let o : Order := [(.one "A", 0), (.one "B", 0)]
+    o.levelsDistinct = false ∧ o.injOn (keysOf [["A"], ["B"]]) = false ∧
+    toInt o ["A"] = toInt o ["B"] ∧ srcGt o ["A"] ["B"] = some false ∧
+    srcGt o ["B"] ["A"] = some false := by decide
+/-- the header of `pep0` in the other order goes to the same database -/
+example : (splitPep cfg0 ⟨pep0.seq, pep0.header.reverse⟩).map (·.1) = (splitPep cfg0 pep0).map (·.1) := by
+  decide
+
+/-! ### encode_decode -/
+
+def uuid0 : Nat → List Char := fun k => ("U" ++ toString k).toList
+def decoy0 : DecoyCfg := ⟨"DECOY_".toList, true⟩
+def recs0 : List (List Char × Pep) :=
+  [("T1|SNV-1-A-T|1".toList, "AAK".toList), ("DECOY_T1|SNV-1-A-T|1".toList, "KAA".toList),
+   ("T2|X|1".toList, "CCK".toList), ("T1|SNV-1-A-T|1".toList, "AAR".toList)]
+
+instance (c : DecoyCfg) (uuid : Nat → List Char) (n : Nat) : Decidable (UuidOk c uuid n) := by
+  unfold UuidOk; exact inferInstance
+
+example : UuidOk decoy0 uuid0 recs0.length := by decide
+/-- target and decoy of one header share the identifier; two dictionary lines for four records -/
+example : (encode decoy0 uuid0 recs0).out.map (·.1) =
+      ["U0".toList, "DECOY_U0".toList, "U1".toList, "U0".toList] ∧
+    (encode decoy0 uuid0 recs0).dict =
+      [("U0".toList, "T1|SNV-1-A-T|1".toList), ("U1".toList, "T2|X|1".toList)] := by decide
+/-- `UuidOk`'s second half is needed: an identifier that starts with the decoy string is decoded
+as a decoy -/
+example : let c : DecoyCfg := ⟨"U".toList, true⟩
+    let st := encode c uuid0 [("X".toList, "AAK".toList)]
+    decode c st.dict (st.out.map (·.1))[0]! = none := by decide
+
+/-! ### summary_eq_split -/
+
+def kr : Re := [⟨[], .pos ['K', 'R'], []⟩]
+def gvSNP : Gvf := ⟨"gSNP", "parseVEP", [(f "G1", f "SNV-1-A-T")]⟩
+def gvINDEL : Gvf := ⟨"gINDEL", "parseVEP", [(f "G1", f "INDEL-5-AC-A")]⟩
+/-- `--order-source gSNP,gINDEL`, two GVFs -/
+def opts0 : CliOpts :=
+  { order0 := [(.one "gSNP", 0), (.one "gINDEL", 1)], group := [], gvfs := [gvSNP, gvINDEL],
+    tx2gene := [(f "T1", f "G1"), (f "T2", f "G2")] }
+def pepSNP : PRec := ⟨"AAK".toList, [[f "T1", f "SNV-1-A-T", f "1"]]⟩
+def pepBoth : PRec := ⟨"CCKR".toList, [[f "T1", f "SNV-1-A-T", f "INDEL-5-AC-A", f "3"]]⟩
+def pool0 : List PRec := [pep0, pepSNP, pepBoth]
+
+/-- the hypotheses of `summary_eq_split` hold for `opts0`, both commands succeed, three
+databases / rows with a count -/
+example : opts0.order.levelsDistinct = true ∧ opts0.order.keysAreSets = true ∧
+    opts0.order.noWildKeys = true ∧ noSharedLabel opts0.gvfs = true ∧
+    opts0.order.plain = ["gSNP", "gINDEL", "NovelORF", "SECT", "CodonReassign"] := by decide
+example : (cliSplit opts0 2 [] pool0).map (·.map fun d => (d.1, d.2.length)) =
+      .ok [(.sources ["gINDEL"] "", 1), (.sources ["gSNP"] "", 1),
+           (.sources ["gSNP", "gINDEL"] "", 1)] ∧
+    (cliSummarize opts0 kr none pool0).map (fun t =>
+        (t.count ["gINDEL"], t.count ["gSNP"], t.count ["gSNP", "gINDEL"], t.count ["SECT"])) =
+      .ok (1, 1, 1, 0) := by decide
+/-- with `--max-source-groups 1` the two-source peptide goes to `Remaining`; part 2 of the theorem
+still accounts for it -/
+example : (cliSplit opts0 1 [] pool0).map (·.map fun d => (d.1, d.2.length)) =
+      .ok [(.sources ["gINDEL"] "", 1), (.sources ["gSNP"] "", 1), (.remaining, 1)] := by decide
+
+/-- **`hnw` is needed** (known finding `summary-vs-split-wildcard`): with `--order-source
+gSNP,gINDEL-*` splitFasta files the two-source peptide under `gINDEL-ALL`, summarizeFasta counts it
+under gSNP-gINDEL -/
+example : let x : CliOpts := { opts0 with order0 := [(.one "gSNP", 0), (.many ["gINDEL", "*"], 1)] }
+    x.order.noWildKeys = false ∧
+    (cliSplit x 2 [] [pepBoth]).map (·.map fun d => (d.1, d.2.length)) =
+      .ok [(.sources ["gINDEL"] "ALL", 1)] ∧
+    (cliSummarize x kr none [pepBoth]).map (fun t => t.count ["gSNP", "gINDEL"]) = .ok 1 := by
+  decide
+/-- **`hns` is needed** (known finding `summary-vs-split-shared-label`): the label of the gSNP GVF
+also occurs in the gINDEL GVF; splitFasta keeps the first source, summarizeFasta the last -/
+example : let x : CliOpts := { opts0 with gvfs := [gvSNP, ⟨"gINDEL", "parseVEP", gvSNP.labels⟩] }
+    noSharedLabel x.gvfs = false ∧
+    (cliSplit x 2 [] [pepSNP]).map (·.map fun d => (d.1, d.2.length)) =
+      .ok [(.sources ["gSNP"] "", 1)] ∧
+    (cliSummarize x kr none [pepSNP]).map (fun t => (t.count ["gSNP"], t.count ["gINDEL"])) =
+      .ok (0, 1) := by
+  decide
 end examples
 
 end MoPepGen.Props.C18
